@@ -130,14 +130,6 @@ def auth_signature(clause, at, t, m):
     return "%s|signapp message -o %s" % (clause, where)
 
 
-def neg_checks():
-    def one(item):
-        cfg, inv, _ = item
-        return item, tlc.run("MC_AppImage", cfg, workers=1, heap="1g")
-    with cf.ThreadPoolExecutor(max_workers=4) as ex:
-        return list(ex.map(one, NEGATIVE))
-
-
 # ------------------------------------------------------------------------------------------------
 def run(ctx):
     res = core.Result()
@@ -169,20 +161,29 @@ def run(ctx):
     if never:
         raise core.MachineryError("vacuity: actions never taken: %s" % never)
     res.coverage["uncovered_actions"] = never
-    # the other bounds, design check only: quick also checks the thorough tier's images (2 x 3 bytes,
-    # R = 3, 1..4 images per run); thorough also checks three runs in a row
-    for cfg in ctx.pick(["MC_AppImage_full.cfg"], ["MC_AppImage_runs3.cfg"]):
-        rx = tlc.check("MC_AppImage", cfg, workers=4)
-        if rx.violated:
-            raise core.MachineryError("AppImage model (%s) violates %s" % (cfg, rx.violated))
-        res.add_tlc(rx, "%s exhaustive" % cfg)
-    negs = []
-    for (cfg, inv, why), rn in neg_checks():
-        if inv not in rn.violated:
-            raise core.MachineryError("negative configuration %s: %s not violated (%s)" % (cfg, inv, rn.error))
-        negs.append("%s: %s violated (%s)" % (cfg, inv, why))
-        res.checker_cmds.append(rn.cmd)
-    res.coverage["negative_configurations"] = negs
+    # the other bounds (design check only: quick also checks the thorough tier's images -- 2 x 3 bytes,
+    # R = 3, 1..4 images per run; thorough also checks three runs in a row) and the negative
+    # configurations run in the background while the behaviours are replayed; collected before judging
+    pool = cf.ThreadPoolExecutor(max_workers=3)
+    extra_cfgs = ctx.pick(["MC_AppImage_full.cfg"], ["MC_AppImage_runs3.cfg"])
+    extra_jobs = [(cfg, pool.submit(tlc.check, "MC_AppImage", cfg, workers=3)) for cfg in extra_cfgs]
+    neg_jobs = [(item, pool.submit(tlc.run, "MC_AppImage", item[0], workers=1, heap="1g")) for item in NEGATIVE]
+
+    def collect_background():
+        for cfg, fut in extra_jobs:
+            rx = fut.result()
+            if rx.violated:
+                raise core.MachineryError("AppImage model (%s) violates %s" % (cfg, rx.violated))
+            res.add_tlc(rx, "%s exhaustive" % cfg)
+        negs = []
+        for (cfg, inv, why), fut in neg_jobs:
+            rn = fut.result()
+            if inv not in rn.violated:
+                raise core.MachineryError("negative configuration %s: %s not violated (%s)" % (cfg, inv, rn.error))
+            negs.append("%s: %s violated (%s)" % (cfg, inv, why))
+            res.checker_cmds.append(rn.cmd)
+        res.coverage["negative_configurations"] = negs
+        pool.shutdown()
 
     # 2. every complete file and every signing session of the model
     gen_cfg = ctx.pick("Gen_AppImage.cfg", "Gen_AppImage_full.cfg")
@@ -277,7 +278,7 @@ def run(ctx):
                 seen[st["out"]] = b["contents"][st["img"] - 1]
         return False
     order.sort(key=lambda k: 0 if reuses(mauths[k]) else 1)
-    n_auth = min(len(order), ctx.pick(1300, 20000))
+    n_auth = min(len(order), ctx.pick(600, 20000))
     n_reuse = 0
     for ai_ in order[:n_auth]:
         b = mauths[ai_]
@@ -346,6 +347,7 @@ def run(ctx):
     res.coverage["random_sessions"] = n_rs
 
     # 5. TLC judges every recorded execution (and must reject corrupted copies of accepted ones)
+    collect_background()
     accepted = judge(ctx, res, traces, meta)
     res.coverage["selftest_corrupted_traces_rejected"] = selftest(accepted)
     return res
